@@ -11,6 +11,7 @@ from __future__ import annotations
 
 import collections
 
+import dns.btree
 import dns.btreezone
 from dns import _immutable_ctx
 import dns.immutable
@@ -74,6 +75,7 @@ class World:
         with self.z.writer(True) as txn:
             txn.add(dns.name.empty, 10, dns.rdata.from_text("IN", "SOA", "m. r. 1 2 3 4 5"))
             txn.add(NA, 10, A1)
+            txn.add(NB, 10, A2)
         self._committed()
 
     # ---- reference bookkeeping
@@ -190,6 +192,11 @@ class World:
                 t.add(NB, 5, TXT)
             elif x == "serial":
                 t.update_serial()
+            elif x == "add_ns_a":
+                # a zone cut at `a`: names beneath it (b.a) become glue (B-tree zones re-flag them)
+                t.add(NA, 10, dns.rdata.from_text("IN", "NS", "ns.other."))
+            elif x == "del_ns_a":
+                t.delete(NA, "NS")
             elif x == "put_rds":
                 # hand the zone a caller-owned mutable Rdataset object and keep it
                 rds = dns.rdataset.Rdataset(dns.rdataclass.IN, dns.rdatatype.TXT, ttl=5)
@@ -348,7 +355,7 @@ def events(w, max_commits, max_readers):
             evs.append(("wbegin",))
     else:
         if len(w.wops) < 2:
-            for x in ("add_a2", "del_a", "add_b", "serial", "put_rds"):
+            for x in ("add_a2", "del_a", "add_b", "serial", "put_rds", "add_ns_a", "del_ns_a"):
                 evs.append(("wop", x))
         evs.append(("wcommit",))
         evs.append(("wrollback",))
@@ -550,6 +557,8 @@ def run_immutability(case):
 def recheck(case):
     if case["mode"] == "immut":
         return [("C11/" + s, w) for s, w in run_immutability(case)]
+    if case["mode"] == "btcow":
+        return _btcow_recheck(case)
     if case["mode"] == "sched":
         from . import c12
         h, probs = c12.run_one(case["cfg"], case["choices"])
@@ -558,12 +567,22 @@ def recheck(case):
     return [("C11/" + s, w) for s, w in probs]
 
 
+_IMM_SEEN = set()
+
+
 def expand(state, col):
     cfg, history, limits = state
     max_commits, max_readers, imm_depth = limits
     w = replay(cfg, history)
     hist_json = [list(e) for e in history]
-    if any(t is not None for t, _ in w.readers) and len(history) <= imm_depth:
+    # the mutator surface depends on which objects a version holds, i.e. on the committed write
+    # operations, not on the reader/pruning events: run it once per distinct (configuration,
+    # committed write ops, pinned position) per worker, at every depth
+    wkey = (cfg["kind"], cfg["relativize"], tuple(e[1] for e in history if e[0] == "wop"),
+            tuple(e[0] for e in history if e[0] in ("wcommit", "wrollback", "poke")),
+            tuple(sorted(vid - w.retained()[-1] for t, vid in w.readers if t is not None)))
+    if any(t is not None for t, _ in w.readers) and wkey not in _IMM_SEEN:
+        _IMM_SEEN.add(wkey)
         case = {"mode": "immut", "cfg": cfg, "history": hist_json}
         try:
             probs = run_immutability(case)
@@ -629,6 +648,83 @@ def sched_part(ctx):
     ctx.pmap(_sched_task, tasks)
 
 
+class SmallTZone(dns.btreezone.Zone):
+    """B-tree zone whose maps use the smallest branching factor, so that a handful of names
+    already exercises node splits, steals and merges of the copy-on-write tree that the
+    versions of a zone share."""
+    map_factory = staticmethod(lambda: dns.btree.BTreeDict(t=3))
+
+
+def _btree_cow_task(task, col):
+    """Reader pinned on version 1 of an n-name zone; every single-name delete / add / replace
+    transaction (committed or rolled back) must leave the reader's snapshot and, for
+    rollbacks, the zone untouched, and commits must give exactly the expected content."""
+    n, rel = task
+    names = [dns.name.from_text("h%02d" % i, None) for i in range(n)]
+    extra = [dns.name.from_text("h%02dx" % i, None) for i in range(-1, n)]
+
+    def fresh():
+        z = SmallTZone(ORIGIN, relativize=rel)
+        with z.writer(True) as txn:
+            txn.add(dns.name.empty, 10, dns.rdata.from_text("IN", "SOA", "m. r. 1 2 3 4 5"))
+            for nm in names:
+                txn.add(nm, 10, A1)
+        return z
+
+    ops = [("del", nm) for nm in names] + [("add", nm) for nm in extra] + [("rep", nm) for nm in names[::3]]
+    for kind, nm in ops:
+        for commit in (True, False):
+            z = fresh()
+            base = zm.real_zone_snapshot(z)
+            rd = z.reader()
+            txn = z.writer()
+            if kind == "del":
+                txn.delete(nm)
+            elif kind == "add":
+                txn.add(nm, 10, A2)
+            else:
+                txn.replace(nm, 10, A2)
+            mid = zm.zone_snapshot(list(rd.iterate_rdatasets()), ORIGIN, rel)
+            if commit:
+                txn.commit()
+            else:
+                txn.rollback()
+            after_reader = zm.zone_snapshot(list(rd.iterate_rdatasets()), ORIGIN, rel)
+            col.count("evaluations")
+            col.count("btree_cow_cases")
+            case = {"mode": "btcow", "n": n, "relativize": rel, "op": kind, "name": nm.to_text(), "commit": commit}
+            exp = dict(base)
+            key = (nm.derelativize(ORIGIN), int(dns.rdatatype.A), 0)
+            if kind == "del":
+                exp.pop(key, None)
+            else:
+                exp[key] = (10, frozenset([A2]))
+            now = zm.real_zone_snapshot(z)
+            bad = None
+            if mid != base:
+                bad = ("btree-cow/reader-sees-open-writer", "reader's snapshot changed while a writer was open (%s %s)" % (kind, nm))
+            elif after_reader != base:
+                bad = ("btree-cow/reader-snapshot-changed", "reader's snapshot changed after %s of %s %s" % ("commit" if commit else "rollback", kind, nm))
+            elif commit and now != exp:
+                bad = ("btree-cow/commit-content", "zone after committing %s %s differs from the expected content" % (kind, nm))
+            elif not commit and now != base:
+                bad = ("btree-cow/rollback-content", "zone changed by a rolled-back %s %s" % (kind, nm))
+            names_iter = [k.derelativize(ORIGIN) for k in z.nodes.keys()]
+            if bad is None and names_iter != sorted(names_iter):
+                bad = ("btree-cow/iteration-order", "names not in canonical order after %s %s" % (kind, nm))
+            col.outcome("btcow:" + (bad[0] if bad else "ok"))
+            if bad:
+                col.violation("C11/" + bad[0], bad[1] + " [n=%d relativize=%s]" % (n, rel), case)
+            rd.rollback()
+    col.nontrivial(("btcow", n, rel))
+
+
+def _btcow_recheck(case):
+    col = __import__("mc.core", fromlist=["Collector"]).Collector()
+    _btree_cow_task((case["n"], case["relativize"]), col)
+    return [(s, v[0].what) for s, v in col.violations.items()]
+
+
 def run(ctx):
     ctx.rule = ("BFS over event histories (reader open latest/by id/by serial incl. missing, reader close, writer "
                 "begin/op/commit/rollback, set_max_versions 1|2|None, custom/default pruning policy) on the real "
@@ -651,6 +747,8 @@ def run(ctx):
             init.append(((kind, rel, "init"), (cfg, (), limits)))
     engines.bfs(ctx, init, expand, max_depth=depth)
     sched_part(ctx)
+    ctx.pmap(_btree_cow_task, [(n, rel) for n in range(5, ctx.pick(22, 40)) for rel in (True, False)])
+    ctx.extra["btree_cow_names"] = [5, ctx.pick(21, 39)]
     # the depth cap is the stated bound, not an accident
     ctx.caps[:] = []
     ctx.extra["depth_bound_reached"] = True
